@@ -6,32 +6,25 @@
    difference in it.  No such behaviour = the execution is not explained by any known finding. *)
 EXTENDS MC_Lifecycle, Json, IOUtils
 
-VARIABLE ord      \* real-time order of calls and replies: "c:r1", "r:r1", ...
-evars == <<vars, ord>>
-eview == <<view, ord>>
-
 E == IOEnv
 WantOp(r) == IF r = "r1" THEN [op |-> E.EXP_OP1, k |-> E.EXP_K1] ELSE [op |-> E.EXP_OP2, k |-> E.EXP_K2]
 ExpMenu == {WantOp("r1"), WantOp("r2")}
+\* replies: "ok" (acknowledged with effect) or "noeffect" (refused / swamp or key not found)
 WantRes == [r \in Reqs |-> IF r = "r1" THEN E.EXP_RES1 ELSE E.EXP_RES2]
 WantFile == [k \in Keys |-> IF k = "k1" THEN E.EXP_F1 ELSE E.EXP_F2]
-\* "c:r1,c:r2,r:r2,r:r1" as a sequence of 4 tokens of 4 characters
-WantOrd == LET s == E.EXP_ORD IN <<SubSeq(s, 1, 4), SubSeq(s, 6, 9), SubSeq(s, 11, 14), SubSeq(s, 16, 19)>>
+\* recorded real-time precedence: "r1r2" = r1 had returned before r2 was called, "r2r1", or "conc" (they overlapped).
+\* A recorded precedence must hold in the behaviour; an overlap constrains nothing (the specification places the
+\* call at the moment SummonSwamp acts, which may be long after the client called).
+RecOrd == E.EXP_ORD
 
-EInit == Init /\ ord = <<>>
 ENext ==
   /\ Next
-  /\ LET called == {r \in Reqs : pc[r] = "idle" /\ pc'[r] # "idle"}
-         done   == {r \in Reqs : pc[r] # "done" /\ pc'[r] = "done"}
-         cs == IF called = {} THEN <<>> ELSE <<"c:" \o (CHOOSE r \in called : TRUE)>>
-         ds == IF done = {} THEN <<>> ELSE <<"r:" \o (CHOOSE r \in done : TRUE)>>
-     IN ord' = ord \o cs \o ds
-  \* only the recorded operations, by the recorded requests, in the recorded order
   /\ \A r \in Reqs : pc'[r] # "idle" => op'[r] = WantOp(r)
-  /\ Len(ord') <= 4 /\ SubSeq(WantOrd, 1, Len(ord')) = ord'
-ESpec == EInit /\ [][ENext]_evars
+  /\ (RecOrd = "r1r2" /\ pc["r2"] = "idle" /\ pc'["r2"] # "idle") => pc["r1"] = "done"
+  /\ (RecOrd = "r2r1" /\ pc["r1"] = "idle" /\ pc'["r1"] # "idle") => pc["r2"] = "done"
+ESpec == Init /\ [][ENext]_vars
 
 NoExplanation ==
-  ~(/\ Terminal /\ res = WantRes /\ file = WantFile /\ ord = WantOrd
+  ~(/\ Terminal /\ [r \in Reqs |-> IF res[r] = "ok" THEN "ok" ELSE "noeffect"] = WantRes /\ file = WantFile
     /\ PrintT(ToJson([explained |-> TRUE, used |-> used])))
 =============================================================================
